@@ -15,6 +15,7 @@ try:
         t0 = time.time()
         r = subprocess.run(['./check', p], cwd='/verif', capture_output=True, text=True, env=dict(os.environ, VERIF_NO_EVIDENCE='1'))
         lines = [l for l in r.stdout.split('\n') if l.startswith(('VIOLATION', 'UNDECIDED', 'KNOWN')) or 'failed obligation' in l]
+        lines = [l for l in lines if not l.startswith('KNOWN')] + [l for l in lines if l.startswith('KNOWN')]
         meta.setdefault('check_results', {})[p] = {'exit': r.returncode, 'caught': r.returncode == 1, 'seconds': round(time.time() - t0, 1),
                                                   'lines': [l[:400] for l in lines[:12]]}
         print(p, 'exit', r.returncode, 'CAUGHT' if r.returncode == 1 else 'MISSED')
